@@ -15,7 +15,7 @@ import textwrap
 import z3
 
 from . import core
-from .core import SymBool, SymInt, mkbool, ite, ctx
+from .core import SymBool, SymInt, mkbool, ite, ctx, is_symbolic
 from .bitsets_model import GuardedSeq
 
 
@@ -71,6 +71,8 @@ LOOP_INVARIANTS = {}     # (function name, index of while loop) -> fn(locals, en
 MUTATORS = {'add', 'remove', 'discard', 'append', 'pop', 'insert', 'update', 'clear', 'replace', 'move', 'extend',
             'sort', 'difference_update', 'intersection_update', 'setdefault', 'popitem', 'reverse'}
 ENCODED = {}             # qualified name -> source hash, for the evidence
+REPO_PREFIX = None       # set by the harness: plain functions of the repository are interpreted, not run natively,
+#                          when they are called under a symbolic guard or with symbolic arguments
 
 
 def register(fn):
@@ -587,6 +589,12 @@ def _call(fr, f, args, kwargs):
     target = getattr(f, '__func__', f)
     code = getattr(target, '__code__', None)
     if code is not None and code in MERGE_FUNCS:
+        if inspect.ismethod(f):
+            args = [f.__self__] + list(args)
+        return call(target, *args, **kwargs)
+    if code is not None and REPO_PREFIX and code.co_filename.startswith(REPO_PREFIX) and inspect.isfunction(target) \
+            and '__class__' not in code.co_freevars \
+            and (cx.guard or any(is_symbolic(a) for a in list(args) + list(kwargs.values()))):
         if inspect.ismethod(f):
             args = [f.__self__] + list(args)
         return call(target, *args, **kwargs)
